@@ -162,6 +162,14 @@ func cmdFidelity(args []string) error {
 				hdr.Add(name, pick(r, []string{"v", "a, b", "", "ü-ñ", strings.Repeat("z", 1+r.intn(40)), "Bearer secret"}))
 			}
 		}
+		if r.chance(35) {
+			// the content types HTTP libraries treat specially (a form body is something net/http offers to parse — and consume)
+			hdr.Set("Content-Type", pick(r, []string{"application/x-www-form-urlencoded", "application/x-www-form-urlencoded; charset=UTF-8", "multipart/form-data; boundary=xyz",
+				"application/json", "text/plain", "APPLICATION/X-WWW-FORM-URLENCODED"}))
+			if r.chance(50) && len(body) >= 7 {
+				copy(body, []byte("a=1&b=2"))
+			}
+		}
 		rec := map[string]interface{}{"k": "fid", "mode": mode, "backend": backend, "maxBody": maxBody, "maxHeaders": maxHdr, "body": hex.EncodeToString(body), "extra": extra, "forwardAuth": extra != nil}
 		if extra == nil {
 			rec["extra"] = [][2]string{}
@@ -333,6 +341,9 @@ func cmdFidelity(args []string) error {
 			}
 			req := httptest.NewRequest("POST", "http://ex/f", bytes.NewReader(body))
 			req.Header.Set("X-Msg", fmt.Sprint(m))
+			if r.chance(30) {
+				req.Header.Set("Content-Type", pick(r, []string{"application/x-www-form-urlencoded", "application/x-www-form-urlencoded; charset=UTF-8", "multipart/form-data; boundary=xyz"}))
+			}
 			if r.chance(50) {
 				req.Header.Set("X-User-Id", "sender-says-admin") // the name the auth service sets
 			}
